@@ -300,16 +300,16 @@ func init() {
 		s, sep := m.termOf(a[0]), m.termOf(a[1])
 		if v, ok := algebraCutNL(m, s, sep); ok {
 			tv := v.(TupleV)
-			return TupleV{ByteSlice{T: tv[0].(*Term)}, ByteSlice{T: tv[1].(*Term)}, tv[2]}
+			return TupleV{ByteSlice{T: tv[0].(*Term), Resliced: true}, ByteSlice{T: tv[1].(*Term), Resliced: true}, tv[2]}
 		}
 		if m.branch("cut.found", strContains(s, sep)) {
 			idx := mk("str.indexof", SInt, s, sep, IntC(0))
 			before := mk("str.substr", SString, s, IntC(0), idx)
 			start := intAdd(idx, strLenInt(sep))
 			after := mk("str.substr", SString, s, start, intSub(strLenInt(s), start))
-			return TupleV{ByteSlice{T: before}, ByteSlice{T: after}, True}
+			return TupleV{ByteSlice{T: before, Resliced: true}, ByteSlice{T: after, Resliced: true}, True}
 		}
-		return TupleV{ByteSlice{T: s}, ByteSlice{Nil: true, T: StrC("")}, False}
+		return TupleV{ByteSlice{T: s, Resliced: true}, ByteSlice{Nil: true, T: StrC("")}, False}
 	})
 	add("html.EscapeString", func(m *Machine, _ *Thread, _ *Frame, a []Value, _ ssa.Value) Value {
 		s := str(a[0])
@@ -372,7 +372,7 @@ func init() {
 		ts := m.splitFork(m.needString(m.termOf(a[0]), "bytes.SplitN"), m.needString(m.termOf(a[1]), "bytes.SplitN"), n)
 		e := make([]Value, len(ts))
 		for i, t := range ts {
-			e[i] = ByteSlice{T: t}
+			e[i] = ByteSlice{T: t, Resliced: true}
 		}
 		return SliceV{O: m.newObj(&ArrayV{E: e}, "splitn"), Len: len(ts), Cap: len(ts)}
 	})
@@ -461,7 +461,7 @@ func init() {
 			if c, isLit := m.litValue(s); isLit && c == "" {
 				dec = StrC("")
 			}
-			return TupleV{ByteSlice{T: dec}, IfaceV{}}
+			return TupleV{m.freshBytes(dec), IfaceV{}}
 		}
 		return TupleV{ByteSlice{Nil: false, T: m.strLit("")}, m.opaqueError("base64.CorruptInputError")}
 	})
@@ -560,11 +560,11 @@ func init() {
 		m.bumpEpoch(a[0])
 		if m.readerFails(a[0]) {
 			// the underlying reader (a socket) failed: partial data, non-nil error
-			return TupleV{ByteSlice{T: m.fresh("io.partial", m.bytesSort())}, m.opaqueError("io.read")}
+			return TupleV{m.freshBytes(m.fresh("io.partial", m.bytesSort())), m.opaqueError("io.read")}
 		}
 		data, set := m.readerSource(a[0])
 		set(m.strLit(""))
-		return TupleV{ByteSlice{T: data}, IfaceV{}}
+		return TupleV{m.freshBytes(data), IfaceV{}}
 	})
 	// bytes.Buffer: an appendable, consumable byte queue (zero value ready to use)
 	bufState := func(m *Machine, v Value) *readerState {
@@ -596,7 +596,7 @@ func init() {
 		return nil
 	})
 	add("(*bytes.Buffer).Bytes", func(m *Machine, _ *Thread, _ *Frame, a []Value, _ ssa.Value) Value {
-		return ByteSlice{T: bufState(m, a[0]).rest}
+		return ByteSlice{T: bufState(m, a[0]).rest, Resliced: true}
 	})
 	add("(*bytes.Buffer).String", func(m *Machine, _ *Thread, _ *Frame, a []Value, _ ssa.Value) Value {
 		return bufState(m, a[0]).rest
@@ -744,7 +744,7 @@ func (m *Machine) readLine(rs *readerState) Value {
 		} else {
 			rs.rest = mk("str.substr", SString, rest, IntC(int64(size)), intSub(strLenInt(rest), IntC(int64(size))))
 		}
-		return TupleV{ByteSlice{T: chunk}, True, IfaceV{}}
+		return TupleV{ByteSlice{T: chunk, Resliced: true}, True, IfaceV{}}
 	}
 	if before, after, ok := m.cutAtByte(rest, '\n'); ok {
 		// the first newline is syntactically determined; the buffer bound is decided from known
@@ -756,7 +756,7 @@ func (m *Machine) readLine(rs *readerState) Value {
 				if head, tail, ok2 := m.splitAt(rest, size); ok2 {
 					if ends, k2 := m.endsWithKnown(head, '\r'); k2 && !ends {
 						rs.rest = tail
-						return TupleV{ByteSlice{T: head}, True, IfaceV{}}
+						return TupleV{ByteSlice{T: head, Resliced: true}, True, IfaceV{}}
 					}
 				}
 				return prefixChunk()
@@ -777,7 +777,7 @@ func (m *Machine) readLine(rs *readerState) Value {
 				cr := strSuffixOf(StrC("\r"), before)
 				line = Ite(cr, mk("str.substr", SString, before, IntC(0), intSub(strLenInt(before), IntC(1))), before)
 			}
-			return TupleV{ByteSlice{T: line}, False, IfaceV{}}
+			return TupleV{ByteSlice{T: line, Resliced: true}, False, IfaceV{}}
 		}
 		return prefixChunk()
 	}
@@ -792,11 +792,11 @@ func (m *Machine) readLine(rs *readerState) Value {
 		// drop one trailing \r
 		cr := strSuffixOf(StrC("\r"), before)
 		line := Ite(cr, mk("str.substr", SString, before, IntC(0), intSub(strLenInt(before), IntC(1))), before)
-		return TupleV{ByteSlice{T: line}, False, IfaceV{}}
+		return TupleV{ByteSlice{T: line, Resliced: true}, False, IfaceV{}}
 	}
 	if m.branch("readline.short", intLT(strLenInt(rest), IntC(int64(size)))) {
 		rs.rest = StrC("")
-		return TupleV{ByteSlice{T: rest}, False, IfaceV{}}
+		return TupleV{ByteSlice{T: rest, Resliced: true}, False, IfaceV{}}
 	}
 	return prefixChunk()
 }
